@@ -146,6 +146,15 @@
 #include <assert.h>
 #include <ctype.h>
 #include <string.h>
+
+#ifdef ASL_VERIF
+#    include "verifhook.h"
+
+extern unsigned long long VerifSymbolDigest(FILE* pDump, unsigned long* pCount);
+
+static long VerifExtraPasses = 0;
+static long VerifMaxLines    = -1;
+#endif
 /**          Code21xx};**/
 
 static long     StartTime, StopTime;
@@ -2152,6 +2161,16 @@ static void GetNextLine(as_dynstr_t* pLine) {
     }
 
     MacLineSum++;
+#ifdef ASL_VERIF
+    if (VerifMaxLines < 0) {
+        VerifMaxLines = VerifEnvLong("ASL_VERIF_MAX_LINES", 0);
+    }
+    if ((VerifMaxLines > 0) && (MacLineSum > VerifMaxLines)) {
+        fprintf(stderr, "VERIF-LINEBUDGET %s pass=%d lines=%ld macro=%d\n", SourceFile,
+                (int)PassNo, (long)MacLineSum, FirstInputTag ? (int)FirstInputTag->IsMacro : -1);
+        exit(96);
+    }
+#endif
 }
 
 typedef struct {
@@ -3035,6 +3054,36 @@ static void AssembleFile_ExitPass(void) {
     WrXError(ErrNum_InternalError, "open include");
 #endif
 
+#ifdef ASL_VERIF
+    if (VerifTrace()) {
+        int         IfDepth = 0, SaveDepth = 0, SectDepth = 0, StructDepth = 0, PhaseDepth = 0;
+        PIfSave     pIf;
+        PSaveState  pSave;
+        PSaveSection pSect;
+        PStructStack pStruct;
+
+        for (pIf = FirstIfSave; pIf; pIf = pIf->Next) {
+            IfDepth++;
+        }
+        for (pSave = FirstSaveState; pSave; pSave = pSave->Next) {
+            SaveDepth++;
+        }
+        for (pSect = SectionStack; pSect; pSect = pSect->Next) {
+            SectDepth++;
+        }
+        for (pStruct = StructStack; pStruct; pStruct = pStruct->Next) {
+            StructDepth++;
+        }
+        for (z = 0; z < SegCount; z++) {
+            for (pSavePhase = pPhaseStacks[z]; pSavePhase; pSavePhase = pSavePhase->pNext) {
+                PhaseDepth++;
+            }
+        }
+        fprintf(VerifTrace(), "Q pass=%d if=%d save=%d sect=%d struct=%d phase=%d outtag=%d\n",
+                (int)PassNo, IfDepth, SaveDepth, SectDepth, StructDepth, PhaseDepth,
+                FirstOutputTag ? 1 : 0);
+    }
+#endif
     UnsetCPU();
     ClearLocStack();
     ClearStacks();
@@ -3165,6 +3214,9 @@ static void AssembleFile(char* Name) {
 
     PassNo         = 0;
     MomLineCounter = 0;
+#ifdef ASL_VERIF
+    VerifExtraPasses = VerifEnvLong("ASL_VERIF_EXTRA_PASSES", 0);
+#endif
 
     /* Listdatei eroeffnen */
 
@@ -3276,6 +3328,29 @@ static void AssembleFile(char* Name) {
             CloseIfOpen(&MacroFile);
         }
 
+#ifdef ASL_VERIF
+        {
+            long MaxPasses = VerifEnvLong("ASL_VERIF_MAX_PASSES", 0);
+
+            if (VerifTrace()) {
+                unsigned long      SymCount;
+                unsigned long long Digest = VerifSymbolDigest(NULL, &SymCount);
+
+                fprintf(VerifTrace(),
+                        "P file=%s pass=%d repass=%d errors=%u warns=%u digest=%016llx nsym=%lu\n",
+                        SourceFile, (int)PassNo, (int)Repass, (unsigned)ErrorCount,
+                        (unsigned)WarnCount, Digest, SymCount);
+            }
+            if (!Repass && (ErrorCount == 0) && (VerifExtraPasses > 0)) {
+                VerifExtraPasses--;
+                Repass = True;
+            }
+            if ((MaxPasses > 0) && (ErrorCount == 0) && Repass && (PassNo >= MaxPasses)) {
+                fprintf(stderr, "VERIF-PASSCAP %s pass=%d\n", SourceFile, (int)PassNo);
+                exit(97);
+            }
+        }
+#endif
         /* evtl. fuer naechsten Durchlauf aufraeumen */
 
         if ((ErrorCount == 0) && (Repass)) {
@@ -3302,6 +3377,13 @@ static void AssembleFile(char* Name) {
         }
     } while ((ErrorCount == 0) && (Repass));
 
+#ifdef ASL_VERIF
+    if (VerifTrace()) {
+        fprintf(VerifTrace(), "F file=%s passes=%d errors=%u warns=%u\n", SourceFile,
+                (int)PassNo, (unsigned)ErrorCount, (unsigned)WarnCount);
+        VerifSymbolDigest(VerifTrace(), NULL);
+    }
+#endif
     /* bei Fehlern loeschen */
 
     if (ErrorCount != 0) {
